@@ -631,7 +631,7 @@ def body(ctx, case):
 
 
 SUBS = [
-    Sub(name="device_histories", body=body, strategy=lambda ctx: case_strategy(ctx), quick=16, thorough=1200,
+    Sub(name="device_histories", body=body, strategy=lambda ctx: case_strategy(ctx), quick=32, thorough=1200,
         lanes=("f64", "f32"), f32_fraction=0.25, quick_shards=2,
         rule="random devices + neighbours, cumulative apply_params history against a per-cell numpy model"),
 ]
